@@ -193,16 +193,17 @@ def parse_dispatch(repo, fname, body, macro, cond):
                 d = re.fullmatch(r"circuit\.add_gate\(\s*(\w+)::new\(\)\s*,\s*qbits\s*\)", arm)
                 p = re.fullmatch(r"add_parametrized_gate!\(\s*(\d+)\s*,\s*circuit\s*,\s*(\w+)\s*,\s*qbits\s*,\s*params\s*\)", arm)
             if d:
-                ty, npar, msg = d.group(1), 0, 0
+                ty, npar, msg, chk = d.group(1), 0, 0, False
             elif p:
                 key = (int(p.group(1)), cond)
                 if key not in macro:
                     raise ValueError("%s: arm %r uses macro arm %r which does not exist" % (fname, name, key))
                 ty = p.group(2)
                 npar, msg, _ = macro[key]
+                chk = True
             else:
                 raise ValueError("%s: arm %r has an unrecognised body: %r" % (fname, name, arm[:80]))
-            rows.append((name, ty, gate_arity(repo, ty), npar, msg))
+            rows.append((name, ty, gate_arity(repo, ty), npar, msg, chk))
         pos = bend
         mm2 = re.compile(r"\s*,").match(blk, pos)
         if mm2:
@@ -217,7 +218,7 @@ def parse_dispatch(repo, fname, body, macro, cond):
 
 
 def rows_lean(rows):
-    return lean_list(["(%s, %s, %d, %d, %d)" % (lean_str(n), lean_str(t), a, p, m) for n, t, a, p, m in rows], per_line=True)
+    return lean_list(["(%s, %s, %d, %d, %d, %s)" % (lean_str(n), lean_str(t), a, p, m, "true" if c else "false") for n, t, a, p, m, c in rows], per_line=True)
 
 
 @T.generator("FfiTables")
@@ -324,10 +325,11 @@ def gen_tables(repo):
     need(r"CHistElem\s*\{\s*key:\s*to_cstring\(key\),\s*count:\s*count\s*\}", "CHistElem::new")
     out = T.header("FfiTables", "src/ffi.rs (dispatch matches, RESULT_* codes, messages, CResult constructors/free) and src/gates/*.rs (arity)")
     out += "/-- arms of `circuit_add_gate`: (lower-case name, Rust gate type, arity of that type,\n"
-    out += "number of parameters checked, count printed in the InvalidNrArguments message). -/\n"
-    out += "def gateTable : List (String × String × Nat × Nat × Nat) := %s\n\n" % rows_lean(gate_rows)
+    out += "number of parameters taken, count printed in the InvalidNrArguments message, whether the arm\n"
+    out += "checks `params.len()` at all — the arms of gates without parameters ignore `params`). -/\n"
+    out += "def gateTable : List (String × String × Nat × Nat × Nat × Bool) := %s\n\n" % rows_lean(gate_rows)
     out += "/-- arms of `circuit_add_conditional_gate`, same columns. -/\n"
-    out += "def condTable : List (String × String × Nat × Nat × Nat) := %s\n\n" % rows_lean(cond_rows)
+    out += "def condTable : List (String × String × Nat × Nat × Nat × Bool) := %s\n\n" % rows_lean(cond_rows)
     out += "def resultCodesRust : List (String × Nat) := %s\n\n" % lean_list(["(%s, %s)" % (lean_str(n), v) for n, v in codes])
     out += "/-- per entry point: literal `CResult::error` messages in source order, number of `assert!(!ptr.is_null())`. -/\n"
     out += "def errorLiterals : List (String × List String × Nat) := %s\n\n" % lean_list(
